@@ -43,6 +43,7 @@ type EnvModel struct {
 	Supply *Term
 	Params map[string]Value
 	nAuto  int
+	exact  map[*Term]*Term // 64-bit values known on this path to be the exact image of an integer term
 }
 
 type envSnap struct {
